@@ -167,9 +167,13 @@ EXPORT_SYMBOL(invoke_safe_str_constraint_handler);
 
 int handle_str_bos_overflow(const char *restrict msg, char *restrict dest,
                             const rsize_t dmax) {
-    /* clear the min of strlen and dmax(=destbos) */
-    size_t len = strnlen_s(dest, dmax);
+    /* clear the min of strlen and dmax(=destbos). Not via strnlen_s, which
+       would report a constraint violation of its own for dmax 0 or > max */
+    size_t len = 0;
     errno_t err = EOVERFLOW;
+    while (len < dmax && dest[len]) {
+        len++;
+    }
     if (unlikely(len > RSIZE_MAX_STR)) {
         len = 1;
         err = ESLEMAX;
